@@ -366,7 +366,10 @@ where
         let membership_rx = node.membership_change_notifier();
 
         let read_handle =
-            EmbeddedReadHandle::new(sm_for_client, node.read_lease(), node.cmd_tx.clone());
+            EmbeddedReadHandle::new(sm_for_client, node.read_lease(), node.cmd_tx.clone())
+                .with_client_override(
+                    node.node_config.raft.read_consistency.allow_client_override,
+                );
 
         let client = {
             let base = EmbeddedClient::new_internal(
